@@ -19,6 +19,7 @@ CONSTANTS
   MaxHeight = 1
   MsgMaxHeight = 1
   MaxRecv = 4
+  WithOutsider = FALSE
   PropShift = 1
 INIT Init
 NEXT Next
